@@ -239,6 +239,16 @@ class Run:
         F = family()
 
         class D:
+            # value semantics like a dataclass-based context manager: distinct doubles with the same scripts are
+            # == and hash-equal (a library must tell disposables apart by identity, never by equality)
+            key = (repr(en), repr(ex), len(ys))
+
+            def __eq__(s, other):
+                return getattr(other, "key", None) == s.key
+
+            def __hash__(s):
+                return hash(s.key)
+
             async def __aenter__(s):
                 run.ev(t, "den", did)
                 try:
